@@ -39,10 +39,10 @@ Theorem C12_range_total : forall a b s,
   exists l, range_list a b (Z.max 1 s) = Ok l /\ l <> [].
 Proof. exact range_list_total. Qed.
 
-(** Tilde: an unquoted token starting with ~ gets the home directory in its place (home
-    without a dollar, token without a newline); quoted tokens and other tokens are unchanged. *)
-Theorem C12_home : forall W rest, ~ In 36 (home W) -> ~ In 10 rest ->
-  expand_home_tok W (TNone, 126 :: rest) = (TNone, home W ++ rest).
+(** Tilde: an unquoted token starting with ~ gets the home directory in its place -- for EVERY home
+    directory (since 1c7eddf it is text: dollars in it stay) and every rest; quoted tokens and other
+    tokens are unchanged. *)
+Theorem C12_home : forall W rest, expand_home_tok W (TNone, 126 :: rest) = (TNone, home W ++ rest).
 Proof. exact expand_home_spec. Qed.
 Theorem C12_home_other : forall W tg s, tg <> TNone \/ strip_prefix [126] s = None ->
   expand_home_tok W (tg, s) = (tg, s).
@@ -83,6 +83,11 @@ Example C12_range_at_limit :
   expand_brace_range [(TNone, [123; 50; 49; 52; 55; 52; 56; 51; 54; 52; 54; 46; 46; 50; 49; 52; 55; 52; 56; 51; 54; 52; 55; 125])]
   = Ok [(TNone, [50; 49; 52; 55; 52; 56; 51; 54; 52; 54]); (TNone, [50; 49; 52; 55; 52; 56; 51; 54; 52; 55])].
 Proof. exact range_at_i32_max. Qed.
+Example C12_home_with_dollar :
+  expand_home_tok (mkWorld (fun _ => None) (fun _ => None) 0%Z 1%Z [47; 104; 36; 116; 97; 105; 108] (fun _ => None)
+                           (fun _ => None) (fun _ => None)) (TNone, [126; 47; 120])
+  = (TNone, [47; 104; 36; 116; 97; 105; 108; 47; 120]).
+Proof. exact home_with_dollar. Qed.
 Example C12_single_alternative :
   brace_getitem [123; 97; 125; 123; 98; 44; 99; 125] 0 = Ok ([[123; 97; 125; 98]; [123; 97; 125; 99]], []).
 Proof. exact single_alternative_group. Qed.
